@@ -386,9 +386,10 @@ Definition spec_status (names : list name) (o : nat -> Z) : Z :=
   end.
 
 (* The declarative statement (spec_queried/spec_status above are its executable form, see
-   Search_proofs.spec_satisfies_stop_rule and stop_rule_functional): the queried names are the shortest prefix ending at the first candidate that yields data
-   or a hard error (or all of them); the status is that candidate's, otherwise no-data if any
-   candidate had no data, otherwise the last candidate's status. *)
+   Search_proofs.spec_satisfies_stop_rule and stop_rule_functional): the queried names are the
+   shortest prefix ending at the first candidate that yields data or a hard error (or all of
+   them); the status is that candidate's, otherwise no-data if any candidate had no data,
+   otherwise the last candidate's status. *)
 Definition stop_rule (names : list name) (o : nat -> Z) (queried : list name) (final : Z) : Prop :=
   exists k, (k < length names)%nat /\ queried = firstn (S k) names /\
     (forall i, (i < k)%nat -> soft names i (o i) = true) /\
